@@ -910,9 +910,19 @@ int main(int argc, char** argv)
             std::cout << "CASE " << id << std::endl;
          }
          else if(dc)
+         {
             dc->run(cmd, tk);
+
+            if(cmd != "COL")
+               std::cout << "US " << (dc->f.usetup ? 1 : 0) << std::endl;     // the protocol flag (LUModel.v: usetup)
+         }
          else if(rc)
+         {
             rc->run(cmd, tk);
+
+            if(cmd != "COL")
+               std::cout << "US " << (rc->f.usetup ? 1 : 0) << std::endl;
+         }
          else if(lc)
             lc->run(cmd, tk);
       }
